@@ -12,6 +12,8 @@ import (
 	"go/ast"
 	"go/token"
 	"go/types"
+
+	"golang.org/x/tools/go/cfg"
 )
 
 func init() {
@@ -137,4 +139,435 @@ func ruleC02Inputs(p *Prog, r *Res) {
 	}
 	r.Note("%s: %d parameters of package index examined, %d non-derived overwrites inside loops", rule, nParams, nLoops)
 	r.Floor(rule+" parameters examined", 50, nParams)
+}
+
+// ---- C02-g: early exit needs a sorted iteration ----
+
+func init() {
+	register("C02",
+		"C02-g (FLOW): the result-owner closure reports 'the limit is reached and nothing better can follow' as its first result. A scan may act on that report (bind it to a variable and break/return) only when it visits candidates in sort order, i.e. when its candidate list comes from the sorted-section lookup: every call site of the closure that binds the first result is unreachable from the entry of searchStreams without passing a call of the function-typed lookup parameter. A scan in file order that stops at the first 'limit reached' never sees better matches stored later in the file.",
+		func(p *Prog, r *Res) {
+			const rule = "C02-g early-exit-needs-sorted-scan"
+			r.Rule(rule + ": scans that stop early iterate in sort order")
+			f := p.Fn("index.Reader.searchStreams")
+			if f == nil {
+				return
+			}
+			info := f.Pkg.TypesInfo
+			// the closure variable and the function-typed lookup parameter
+			var clo types.Object
+			inspectShallow(f.Body(), func(x ast.Node) bool {
+				if as, ok := x.(*ast.AssignStmt); ok && len(as.Lhs) == 1 && len(as.Rhs) == 1 && clo == nil {
+					if lit, ok := as.Rhs[0].(*ast.FuncLit); ok {
+						writes := false
+						ast.Inspect(lit.Body, func(y ast.Node) bool {
+							if a2, ok := y.(*ast.AssignStmt); ok {
+								for _, l := range a2.Lhs {
+									if isFieldSel(info, l, "resultData", "streams") {
+										writes = true
+									}
+								}
+							}
+							return true
+						})
+						if writes {
+							clo = identObj(info, as.Lhs[0])
+						}
+					}
+				}
+				return true
+			})
+			var lookups []types.Object
+			for i := 0; ; i++ {
+				o := paramObj(f, i)
+				if o == nil {
+					break
+				}
+				if sig, ok := o.Type().Underlying().(*types.Signature); ok && sig.Params().Len() == 0 && sig.Results().Len() == 2 {
+					lookups = append(lookups, o)
+				}
+			}
+			if clo == nil || len(lookups) == 0 {
+				p.anchorFail("result-owner closure / sorted lookup parameter of index.Reader.searchStreams")
+				return
+			}
+			fl := p.Flow(f)
+			callsLookup := func(n ast.Node) bool {
+				return fl.hasCall(n, func(c *ast.CallExpr) bool {
+					o := identObj(info, c.Fun)
+					for _, l := range lookups {
+						if o == l {
+							return true
+						}
+					}
+					return false
+				})
+			}
+			n := 0
+			for _, pt := range fl.Find(func(nd ast.Node) bool {
+				as, ok := nd.(*ast.AssignStmt)
+				if !ok || len(as.Rhs) != 1 {
+					return false
+				}
+				c, ok := as.Rhs[0].(*ast.CallExpr)
+				return ok && identObj(info, c.Fun) == clo
+			}) {
+				as := fl.node(pt).(*ast.AssignStmt)
+				n++
+				key := fmt.Sprintf("%s scan@%s", f.Key(), relLine(p, f, as))
+				id, isID := as.Lhs[0].(*ast.Ident)
+				if isID && id.Name == "_" {
+					r.Ok(rule, key, p.Pos(as), "ignores the limit report: visits every candidate")
+					continue
+				}
+				// bound but never consulted in a condition (logged, counted): does not stop early
+				if isID {
+					lo := info.Defs[id]
+					if lo == nil {
+						lo = info.Uses[id]
+					}
+					inCond := false
+					usedElsewhere := false
+					if lo != nil {
+						inspectParents(f.Body(), func(y ast.Node, parents []ast.Node) bool {
+							yid, ok := y.(*ast.Ident)
+							if !ok || info.Uses[yid] != lo {
+								return true
+							}
+							cls := "other"
+							for i := len(parents) - 1; i >= 0; i-- {
+								var child ast.Node = y
+								if i+1 < len(parents) {
+									child = parents[i+1]
+								}
+								switch par := parents[i].(type) {
+								case *ast.IfStmt:
+									if child == ast.Node(par.Cond) {
+										cls = "cond"
+									}
+								case *ast.ForStmt:
+									if par.Cond != nil && child == ast.Node(par.Cond) {
+										cls = "cond"
+									}
+								case *ast.SwitchStmt:
+									if par.Tag != nil && child == ast.Node(par.Tag) {
+										cls = "cond"
+									}
+								case *ast.CaseClause:
+									for _, e := range par.List {
+										if child == ast.Node(e) {
+											cls = "cond"
+										}
+									}
+								case *ast.AssignStmt:
+									// `_ = x` keeps the compiler quiet and nothing else
+									if len(par.Lhs) == 1 && len(par.Rhs) == 1 && child == ast.Node(par.Rhs[0]) {
+										if l, ok := par.Lhs[0].(*ast.Ident); ok && l.Name == "_" {
+											cls = "discard"
+										}
+									}
+								case *ast.CallExpr:
+									if fn := p.Callee(f.Pkg, par); fn != nil && fn.Pkg() != nil && (fn.Pkg().Path() == "log" || fn.Pkg().Path() == "fmt") && cls == "other" {
+										cls = "discard"
+									}
+								}
+								if cls != "other" {
+									break
+								}
+							}
+							switch cls {
+							case "cond":
+								inCond = true
+							case "other":
+								usedElsewhere = true
+							}
+							return true
+						})
+						if !inCond && !usedElsewhere {
+							r.Ok(rule, key, p.Pos(as), "binds the limit report but never consults it: visits every candidate")
+							continue
+						}
+					}
+				}
+				res := fl.Reach([]Pt{fl.Entry()}, func(x ast.Node) bool { return x == ast.Node(as) }, callsLookup)
+				r.Check(!res.Found, rule, key, p.Pos(as), "acts on the limit report; reachable only after the sorted-section lookup", "this scan stops when the closure reports the limit as reached, but it can run without the sorted-section lookup ("+fl.traceString(res)+"): in file order a better match stored later is never looked at, the page holds the wrong streams")
+			}
+			r.Floor(rule, 3, n)
+		})
+}
+
+// ---- C02-h: file-relative values are compared only within one file ----
+
+func init() {
+	// delegation support for the comparator-orientation check (C02-b, C01-c)
+	comparatorDelegate = nil
+	register("C02",
+		"C02-h (AST, typed): host-table indexes (HostGroup, ClientHost, ServerHost), packet/data offsets and the nanosecond time fields of a stream are relative to the index file the stream was read from. In every function of package index that takes two streams, a comparison of such a field of one stream with the same field of the other is guarded by the identity of their readers (`a.r == b.r` as a conjunct of the same condition or of an enclosing if): across files equal indexes name different hosts, so an unguarded shortcut makes streams with different addresses compare equal and the sort order — and with a limit the page — wrong.",
+		ruleC02FileRelative)
+}
+
+func ruleC02FileRelative(p *Prog, r *Res) {
+	const rule = "C02-h file-relative-compare-guarded"
+	r.Rule(rule + ": file-relative stream fields of two streams are compared only under a.r == b.r")
+	relative := map[string]bool{"HostGroup": true, "ClientHost": true, "ServerHost": true, "FirstPacketTimeNS": true, "LastPacketTimeNS": true, "PacketInfoStart": true, "DataStart": true}
+	// install the delegate resolver now that p is available
+	comparatorDelegate = func(info *types.Info, lit *ast.FuncLit, a, b types.Object) (*Fn, bool, bool) {
+		if len(lit.Body.List) != 1 {
+			return nil, false, false
+		}
+		ret, ok := lit.Body.List[0].(*ast.ReturnStmt)
+		if !ok || len(ret.Results) != 1 {
+			return nil, false, false
+		}
+		c, ok := ast.Unparen(ret.Results[0]).(*ast.CallExpr)
+		if !ok || len(c.Args) < 2 {
+			return nil, false, false
+		}
+		var owner *Fn
+		for _, f := range p.FnList {
+			if f.Short == "index" && f.Pkg.TypesInfo == info {
+				owner = f
+				break
+			}
+		}
+		if owner == nil {
+			return nil, false, false
+		}
+		fn := p.Callee(owner.Pkg, c)
+		if fn == nil {
+			return nil, false, false
+		}
+		h := p.FnOfObj(fn)
+		if h == nil || h.Lit != nil || h.Body() == nil {
+			return nil, false, false
+		}
+		x, y := identObj(info, c.Args[0]), identObj(info, c.Args[1])
+		switch {
+		case x == a && y == b:
+			return h, true, true
+		case x == b && y == a:
+			return h, false, true
+		}
+		return nil, false, false
+	}
+	n := 0
+	// every function body of package index, including literals in package-level variable initialisers (the comparator table)
+	type body struct {
+		name string
+		typ  *ast.FuncType
+		blk  *ast.BlockStmt
+	}
+	var bodies []body
+	pk := p.By["index"]
+	if pk == nil {
+		return
+	}
+	info := pk.TypesInfo
+	for _, file := range pk.Syntax {
+		nLit := 0
+		var encl string
+		inspectAllParents(file, func(x ast.Node, parents []ast.Node) bool {
+			switch fd := x.(type) {
+			case *ast.FuncDecl:
+				encl = fd.Name.Name
+				nLit = 0
+				if fd.Body != nil {
+					bodies = append(bodies, body{"index." + fd.Name.Name, fd.Type, fd.Body})
+				}
+			case *ast.FuncLit:
+				name := ""
+				if len(parents) > 0 {
+					if kv, ok := parents[len(parents)-1].(*ast.KeyValueExpr); ok && kv.Value == ast.Expr(fd) {
+						name = "index comparator[" + types.ExprString(kv.Key) + "]"
+					}
+				}
+				if name == "" {
+					nLit++
+					name = fmt.Sprintf("index.%s literal#%d", encl, nLit)
+				}
+				bodies = append(bodies, body{name, fd.Type, fd.Body})
+			}
+			return true
+		})
+	}
+	for _, bd := range bodies {
+		var streams []types.Object
+		for _, fld := range bd.typ.Params.List {
+			for _, id := range fld.Names {
+				o := info.Defs[id]
+				// only the reader-bound Stream (it carries the reader it was read from); raw `stream` records are compared
+				// inside one file by construction (writer-side lookups)
+				if o != nil {
+					if nt := namedOf(o.Type()); nt != nil && nt.Obj().Name() == "Stream" {
+						streams = append(streams, o)
+					}
+				}
+			}
+		}
+		if len(streams) < 2 {
+			continue
+		}
+		fieldOfStream := func(e ast.Expr) (types.Object, string) {
+			se, ok := ast.Unparen(e).(*ast.SelectorExpr)
+			if !ok {
+				return nil, ""
+			}
+			o := identObj(info, se.X)
+			for _, s := range streams {
+				if s == o {
+					return o, se.Sel.Name
+				}
+			}
+			return nil, ""
+		}
+		sameReader := func(cond ast.Expr) bool {
+			for _, c := range conjuncts(cond) {
+				be, ok := ast.Unparen(c).(*ast.BinaryExpr)
+				if !ok || be.Op != token.EQL {
+					continue
+				}
+				ox, fx := fieldOfStream(be.X)
+				oy, fy := fieldOfStream(be.Y)
+				if ox != nil && oy != nil && ox != oy && fx == "r" && fy == "r" {
+					return true
+				}
+			}
+			return false
+		}
+		inspectParents(bd.blk, func(x ast.Node, parents []ast.Node) bool {
+			be, ok := x.(*ast.BinaryExpr)
+			if !ok {
+				return true
+			}
+			switch be.Op {
+			case token.EQL, token.NEQ, token.LSS, token.GTR, token.LEQ, token.GEQ:
+			default:
+				return true
+			}
+			ox, fx := fieldOfStream(be.X)
+			oy, fy := fieldOfStream(be.Y)
+			if ox == nil || oy == nil || ox == oy || fx != fy || !relative[fx] {
+				return true
+			}
+			n++
+			key := fmt.Sprintf("%s compares %s of two streams (+%d)", bd.name, fx, lineOf(p.Fset, be)-lineOf(p.Fset, bd.blk))
+			guarded := false
+			// same condition (walk up through && chains) or an enclosing if
+			for i := len(parents) - 1; i >= 0 && !guarded; i-- {
+				switch par := parents[i].(type) {
+				case *ast.BinaryExpr:
+					if par.Op == token.LAND && sameReader(par) {
+						guarded = true
+					}
+				case *ast.IfStmt:
+					var child ast.Node = x
+					if i+1 < len(parents) {
+						child = parents[i+1]
+					}
+					if sameReader(par.Cond) && (child == ast.Node(par.Body) || child == ast.Node(par.Cond)) {
+						guarded = true
+					}
+				}
+			}
+			if !guarded {
+				// path form: every path from the entry of the function to the comparison takes an edge that establishes
+				// a.r == b.r (true edge of a condition with that conjunct, false edge of one with the disjunct a.r != b.r,
+				// possibly through a local boolean)
+				g := cfg.New(bd.blk, func(*ast.CallExpr) bool { return true })
+				gfl := &Flow{P: p, G: g, at: map[ast.Node]Pt{}}
+				resolve := func(c ast.Expr) ast.Expr {
+					c = ast.Unparen(c)
+					if id, ok := c.(*ast.Ident); ok {
+						if o := info.Uses[id]; o != nil {
+							var def ast.Expr
+							nDef := 0
+							ast.Inspect(bd.blk, func(y ast.Node) bool {
+								if as, ok := y.(*ast.AssignStmt); ok && len(as.Lhs) == len(as.Rhs) {
+									for i, l := range as.Lhs {
+										if identObj(info, l) == o {
+											nDef++
+											def = as.Rhs[i]
+										}
+									}
+								}
+								return true
+							})
+							if nDef == 1 {
+								return ast.Unparen(def)
+							}
+						}
+					}
+					return c
+				}
+				readerCmp := func(c ast.Expr, op token.Token) bool {
+					c = resolve(c)
+					if ue, ok := c.(*ast.UnaryExpr); ok && ue.Op == token.NOT {
+						c = resolve(ue.X)
+						if op == token.EQL {
+							op = token.NEQ
+						} else {
+							op = token.EQL
+						}
+					}
+					b2, ok := c.(*ast.BinaryExpr)
+					if !ok || b2.Op != op {
+						return false
+					}
+					o1, f1 := fieldOfStream(b2.X)
+					o2, f2 := fieldOfStream(b2.Y)
+					return o1 != nil && o2 != nil && o1 != o2 && f1 == "r" && f2 == "r"
+				}
+				establishes := false
+				gfl.EdgeOK = func(b *cfg.Block, succ int) bool {
+					if len(b.Succs) != 2 || len(b.Nodes) == 0 {
+						return true
+					}
+					cond, ok := b.Nodes[len(b.Nodes)-1].(ast.Expr)
+					if !ok {
+						return true
+					}
+					if succ == 0 {
+						for _, c := range conjuncts(cond) {
+							if readerCmp(c, token.EQL) {
+								establishes = true
+								return false
+							}
+						}
+					} else {
+						for _, c := range disjuncts(cond) {
+							if readerCmp(c, token.NEQ) {
+								establishes = true
+								return false
+							}
+						}
+					}
+					return true
+				}
+				res := gfl.Reach([]Pt{gfl.Entry()}, func(nd ast.Node) bool { return nd.Pos() <= be.Pos() && be.End() <= nd.End() }, nil)
+				if !res.Found && establishes {
+					guarded = true
+				}
+			}
+			r.Check(guarded, rule, key, p.Pos(be), "under a.r == b.r", "the "+fx+" values of two streams are compared without knowing that both come from the same index file: "+fx+" is relative to the file, equal values in different files mean different things")
+			return true
+		})
+	}
+	r.Floor(rule, 4, n)
+}
+
+// inspectAllParents walks root (descending into function literals too) and calls f with each node and its ancestors.
+func inspectAllParents(root ast.Node, f func(n ast.Node, parents []ast.Node) bool) {
+	var stack []ast.Node
+	ast.Inspect(root, func(n ast.Node) bool {
+		if n == nil {
+			stack = stack[:len(stack)-1]
+			return true
+		}
+		ok := f(n, stack)
+		if !ok {
+			return false
+		}
+		stack = append(stack, n)
+		return true
+	})
 }
